@@ -51,3 +51,9 @@ CHECKS["C15"] = {
   "text": "Generated ETH / BTC books (0-8 levels per side, integer and float sizes, bids <= mark <= asks) x 1-7 orders per bar over 1-2 bars in all pricing modes (market, limit in token with jitter, limit in USD, cap relative to mark, cap + limit), sizes from below the minimum to beyond total depth, deposits / withdrawals in between; per step: accepted iff the reference fills it (depth, level, cash, holding), fills best-first with per-level sizes, fee = min(0.03% x contracts, 12.5% x premium) half-up at the fee step, cash / position / size-weighted averages, visible book after the fill, other instruments untouched, the action record, equity = cash + positions at mark; a rejected order leaves everything as it was; the book refreshes on the next bar and the supplied frame is never written. Sampled exploration.",
   "note": "Decisions closer than 1e-9 to their boundary (float book sizes, a level exactly on the cap) are not asserted.",
 }
+
+CHECKS["C16"] = {
+  "technique": "Hypothesis generated option holdings, underlying paths and expiry placements run through the real Actuator loop (hourly market alone or with a minutely co-market); per-bar log compared with the settlement rule",
+  "text": "2-6 hourly snapshots x ETH / BTC x 1-4 calls / puts bought on the first open bar (some partly or wholly sold later) x strikes equal to, one unit beside and far from the underlying at settlement x expiries on the grid, between grid points, before the first bar and after the last x instrument still listed or delisted at settlement x trade probes on closed and open bars; checked: position held on every bar before and removed exactly at the first open bar at or after expiry, one Expired record and at most one Deliver record at that bar, payoff = contracts x |U - K| / U at the fee step, fee = min(0.015% x contracts, 12.5% x contracts x mark), nothing paid out of the money or when the payoff does not exceed the fee, option cash explained bar by bar by the records, trades on closed bars raise and change nothing, supplied data unchanged. Sampled exploration.",
+  "note": "Every hour in range has a snapshot; delisted instruments: fee only bounded; rounding ties of the float division may go either way.",
+}
